@@ -902,7 +902,7 @@ func writeEvidence(prop string, cfg propCfg, tier string, seed uint64, a *agg, s
 // expectedProbes lists probes that a healthy batch must hit (reported in evidence when zero).
 var expectedProbes = map[string][]string{
 	"C01": {"c01-request-checked", "c01-protected-write-bound-true", "c01-protected-write-bound-false"},
-	"C03": {"write-authorised", "write-unauthorised", "write-overlapped-registry-change", "write-notified-subscriber"},
+	"C03": {"write-authorised", "write-unauthorised", "write-notified-subscriber", "write-source-device-omitted", "peer-announced-known-entity-again"},
 	"C04": {"c04-write-accepted", "c04-write-rejected", "c04-twin-checked", "c04-protected-element-present", "c04-shape-delete-selector+partial-selector"},
 	"C05": {"c05-mutated-message-handled", "c05-node-management-registry-call", "c05-messages-before-discovery", "c05-probe-read-answered"},
 	"C06": {"c06-add-and-remove-in-one-notification", "c06-remove-unknown-entity", "c06-repeated-announcement"},
